@@ -16,6 +16,18 @@ Oracles, all taken from the statement and evaluated on the implementation's own 
   * guards, once per state: DUP / DUP n of a slot that holds a ticket anywhere inside must be refused.
 GET n on a pair that holds tickets is NOT a guard: Tezos types it (the pair is consumed, the other components are
 dropped), so it is run as a consuming instruction and judged by the ledger like DROP.
+
+Besides the BFS two families of scripted histories run through the same judge, transition by transition:
+  * contents family ("all contents"): for every comparable content type of nesting depth <= 3 over nat/string/bytes/bool/int/unit
+    with option/or/pair, and ALL its values over two-valued atom domains that contain the empty / zero / false value
+    (so Left x / Right x, None / Some <empty>, "" / 0x, swapped pair components all collide if anything confuses them),
+    every ordered pair of values is minted, paired and JOINed; a successful join is SPLIT, READ and JOINed again;
+  * shape family: a ticket buried under every chain of wrappers (option, pair with a nat on either side, list, or on either
+    side, map value).
+Process history: a DUP guard is not only tried on the ticket stack; the first time a stack shape is met in a shard the
+same DUP is first executed on the ticket-free value of the same shape (tickets replaced by their contents, built by
+PUSH - it is legal and is what ordinary programs do), then on the ticket stack, then both again (A-B-A-B), each ticket
+DUP judged.  A history that is replayed to rebuild a state must reproduce the state it gave the first time.
 """
 from __future__ import annotations
 
@@ -33,20 +45,35 @@ RULE = ('BFS from the empty stack over TICKET(self in {default,KT1x}, amount 0..
         'SPLIT_TICKET (x,y) in {0..3}^2, JOIN_TICKETS, PAIR, UNPAIR, SWAP, DIG 2, DUG 2, DROP, SOME, IF_NONE{FAIL}{}, NIL, CONS, '
         'ITER{DROP}, ITER{PAIR;JOIN_TICKETS;IF_NONE{FAIL}{}}, GET 1/GET 2 (consuming); state = stack in reference form; every '
         'transition runs on the real instruction classes and on the reference evaluator and both stacks must agree; '
-        'non-trivial = distinct (state, transition) whose state holds at least one ticket')
+        'contents family: per comparable content type (atoms nat/string/bytes/bool/int/unit with 2 values each incl. the empty/zero/false '
+        'one; cores = atom | option a | or a b | pair a b; cores buried in context chains of option / pair nat _ / pair _ string / '
+        'or _ nat / or nat _) every ordered pair of ALL its values is minted (amounts 2 and 1, same ticketer; foreign ticketer for '
+        'equal contents), PAIRed and JOINed, a Some is SPLIT (1,2), UNPAIRed, READ and JOINed again; shape family: a ticket under '
+        'every chain of wrappers option / pair nat _ / pair _ nat / list / or _ nat / or nat _ / map nat _; DUP guards: DUP and DUP n '
+        'of every ticket-bearing slot must be refused, and per stack shape once inside the history shadow-DUP, DUP, shadow-DUP, DUP '
+        'where the shadow is the PUSHed ticket-free value of the same shape; '
+        'non-trivial = distinct (state, transition) whose state holds at least one ticket, plus distinct (stack shape, guard) histories')
 BOUND = {'quick': 'all histories of <= 4 transitions from each of 5 roots: the empty stack, [ticket(self,"a",3)] and three two-ticket stacks '
                   '(same ticketer+contents / other ticketer / other contents), i.e. histories of up to 8 transitions from the empty '
-                  'stack; TICKET and NIL are tried only on stacks of fewer than 3 slots',
+                  'stack; TICKET and NIL are tried only on stacks of fewer than 3 slots; contents family: 1374 content types (all 84 cores '
+                  'over 6 atoms, each in every context of depth <= 1; cores over nat/string/bytes/bool also in every context chain of depth 2; '
+                  'sibling components constant), 38656 mint-mint-pair-join histories; shape family: all 399 wrapper chains of length <= 3',
          'thorough': 'the same with <= 5 transitions from each root, <= 6 from the two-ticket roots with the same key and with different '
-                     'ticketers (up to 10 transitions from the empty stack)'}
+                     'ticketers (up to 10 transitions from the empty stack); contents family: 2424 content types (every core in every context '
+                     'chain of depth <= 2, sibling components over two values), 219956 join histories; shape family: all 2800 wrapper chains '
+                     'of length <= 4'}
 ASSUMPTIONS = ['ticket values have no literal form: states are rebuilt by replaying their (shortest) history on the real '
                'instructions, successors by deep-copying that stack',
                'the ticketer is the SELF_ADDRESS of the execution context of the TICKET transition; tickets of a foreign '
                'ticketer are obtained by running TICKET under the second self address',
-               'contents are strings only; amounts up to 3 per TICKET (totals grow by joining)']
+               'the BFS uses string contents only and amounts up to 3 per TICKET (totals grow by joining); other content types are '
+               'covered by the scripted contents family (fixed amounts 2 and 1), contents of nesting depth > 3 and atoms other than '
+               'nat/string/bytes/bool/int/unit are not explored',
+               'the ticket-free shadow of a stack is built by PUSH; whether DUP accepts it is not judged (not C20), only counted']
 LEVEL_TEXT = ('model checking: every reachable stack over the alphabet up to the history depth is visited once, each transition is '
               'executed on the real instructions in lock-step with the reference evaluator, and the ledger invariant is checked '
-              'in every state; bounded by depth, amounts and the two contents/ticketers')
+              'in every state; join/split/read are additionally run for every pair of values of every small comparable content type, and the '
+              'DUP guards inside histories with ticket-free values of the same shape; bounded by depth, amounts, content nesting and the two ticketers')
 
 STRING, NAT = ('string',), ('nat',)
 TKT = ('ticket', STRING)
@@ -74,8 +101,12 @@ def code_of(tr):
     """Transition spec (JSON-able list) -> Micheline code."""
     k = tr[0]
     if k == 'TICKET':
-        _, _self, n, c = tr
-        return [P('PUSH', P('nat'), I(n)), P('PUSH', P('string'), {'string': c}), P('TICKET')]
+        _, tym, lit = ticket_content(tr)
+        return [P('PUSH', P('nat'), I(tr[2])), P('PUSH', tym, lit), P('TICKET')]
+    if k == 'WRAP':
+        return wrap_code(tr[1], tr[2])
+    if k == 'PUSH':
+        return [P('PUSH', tr[1], tr[2])]
     if k == 'SPLIT':
         _, x, y = tr
         return [P('PUSH', NAT2, P('Pair', I(x), I(y))), P('SWAP'), P('SPLIT_TICKET')]
@@ -90,6 +121,30 @@ def code_of(tr):
     if k in ('DIG', 'DUG', 'GET', 'DUP'):
         return [P(k, I(tr[1]))] if len(tr) > 1 else [P(k)]
     return [P(k)]
+
+
+def ticket_content(tr):
+    """TICKET transition -> (reference value of the contents, type Micheline, literal Micheline).  ['TICKET', self, amount, "c"]
+    mints string contents; ['TICKET', self, amount, literal, type] mints contents of any comparable type."""
+    if len(tr) == 4:
+        return tr[3], P('string'), {'string': tr[3]}
+    return T.v_from_micheline(T.t_from_micheline(tr[4]), tr[3]), tr[4], tr[3]
+
+
+# wrappers that bury the top slot one level deeper next to ticket-free siblings (shape family)
+WRAPPERS = ['option', 'pair_l', 'pair_r', 'list', 'or_l', 'or_r', 'map']
+
+
+def wrap_code(kind, tym):
+    """Code that wraps the top slot, whose type (Micheline) is tym."""
+    one = P('PUSH', P('nat'), I(1))
+    return {'option': [P('SOME')],
+            'pair_l': [one, P('PAIR')],                       # pair nat X
+            'pair_r': [one, P('SWAP'), P('PAIR')],            # pair X nat
+            'list': [P('NIL', tym), P('SWAP'), P('CONS')],    # list X
+            'or_l': [P('LEFT', P('nat'))],                    # or X nat
+            'or_r': [P('RIGHT', P('nat'))],                   # or nat X
+            'map': [P('EMPTY_MAP', P('nat'), tym), P('SWAP'), P('SOME'), one, P('UPDATE')]}[kind]   # map nat X
 
 
 def alphabet():
@@ -287,6 +342,11 @@ def _vs(t, v):
 
 
 def tr_name(tr):
+    if tr[0] == 'TICKET' and len(tr) > 4:
+        t = T.t_from_micheline(tr[4])
+        return f'TICKET {tr[1]} {tr[2]} {T.v_str(t, ticket_content(tr)[0])} : {T.t_str(t)}'
+    if tr[0] == 'WRAP':
+        return f'WRAP {tr[1]}'
     return ' '.join(str(x) for x in tr)
 
 
@@ -323,7 +383,7 @@ def judge(state, tr, stack):
     if zero:
         vs.append((f'{k}: leaves a ticket of amount 0 on the stack', f'{where}: implementation -> {show(impl)}'))
     if k == 'TICKET':
-        key = (T.parse_address(SELVES[tr[1]] or default_self())[:2] + ('',), tr[3])
+        key = (T.parse_address(SELVES[tr[1]] or default_self())[:2] + ('',), ticket_content(tr)[0])
         exp = dict(led0)
         if tr[2] > 0:
             exp[key] = exp.get(key, 0) + tr[2]
@@ -370,7 +430,7 @@ def judge(state, tr, stack):
     # --- lock-step with the reference evaluator
     if impl != new and not vs:
         vs.append((f'{k}: result differs from the reference evaluator', f'{where}: implementation -> {show(impl)}, reference -> {show(new)}'))
-    label = k
+    label = k if k != 'WRAP' else f'WRAP {tr[1]}'
     if k in ('TICKET', 'SPLIT', 'JOIN_TICKETS'):
         label += ' -> ' + ('None' if new[0][1] is None else 'Some')
     return vs, label + ('' if impl == new else ' (diverges)'), new, impl
@@ -389,6 +449,92 @@ def judge_guard(state, g, stack):
     return []
 
 
+def shadow(t, v):
+    """The ticket-free value of the same shape: every ticket is replaced by its contents (type and value)."""
+    p = t[0]
+    if p == 'ticket':
+        return t[1], v[2]
+    if p == 'pair':
+        (ta, a), (tb, b) = shadow(t[1], v[0]), shadow(t[2], v[1])
+        return ('pair', ta, tb), (a, b)
+    if p == 'option':
+        ti = shadow_type(t[1])
+        return ('option', ti), (None if v is None else ('Some', shadow(t[1], v[1])[1]))
+    if p == 'or':
+        return ('or', shadow_type(t[1]), shadow_type(t[2])), (v[0], shadow(t[1] if v[0] == 'L' else t[2], v[1])[1])
+    if p == 'list':
+        return ('list', shadow_type(t[1])), tuple(shadow(t[1], x)[1] for x in v)
+    if p == 'map':
+        return ('map', t[1], shadow_type(t[2])), tuple((k, shadow(t[2], x)[1]) for k, x in v)
+    return t, v
+
+
+def shadow_type(t):
+    if t[0] == 'ticket':
+        return t[1]
+    return (t[0],) + tuple(shadow_type(a) if isinstance(a, tuple) else a for a in t[1:])
+
+
+def shadow_stack(state):
+    """A real stack holding the shadows of all slots, built the way a program does: by PUSH."""
+    from pytezos.michelson.stack import MichelsonStack
+    st = MichelsonStack([])
+    for t, v in reversed(state):
+        ts, vs_ = shadow(t, v)
+        got = impl_step(st, ['PUSH', T.t_to_micheline(ts), T.v_to_micheline(ts, vs_)])
+        if got[0] != 'ok':
+            return None
+    return st
+
+
+def judge_guard_history(state, g, fresh):
+    """Process history A-B-A-B: the same DUP on the ticket-free shadow of the stack (legal: whatever the implementation
+    remembers about 'this shape is duplicable' is now in place), then on the ticket stack (must be refused), and both once
+    more.  `fresh()` returns a private copy of the state's real stack.  Returns (violations, shadow verdicts)."""
+    vs, shadows = [], []
+    for attempt in (1, 2):
+        sh = shadow_stack(state)
+        shadows.append('unbuildable' if sh is None else impl_step(sh, g)[0])
+        got = impl_step(fresh(), g)
+        if got[0] == 'ok' and not vs:
+            name = f'{g[0]}{" n" if len(g) > 1 else ""}'
+            if attempt == 1:
+                vs.append((f'{name} accepted on a slot that holds a ticket (duplication)',
+                           f'state {show(state)} guard {tr_name(g)} after the same DUP on the ticket-free value of the same shape: '
+                           f'implementation duplicated the slot'))
+            else:
+                vs.append((f'{name} accepted on a slot that holds a ticket once it was refused and a ticket-free value of the same shape duplicated',
+                           f'state {show(state)} guard {tr_name(g)}: refused the first time, accepted the second'))
+    return vs, shadows
+
+
+def run_guards(state, history, fresh, r: Result, seen_shapes):
+    """All DUP guards of one state.  The first time a stack shape (tuple of slot types) is met in this shard the guard is
+    run inside the A-B-A-B history with its ticket-free shadow; later states of the same shape get the plain guard."""
+    types = tuple(t for t, _ in state)
+    with_history = types not in seen_shapes
+    seen_shapes.add(types)
+    for g in guards(list(types)):
+        r.ev()
+        r.extra['guards tried'] += 1
+        name = f'guard {g[0]}{" n" if len(g) > 1 else ""}'
+        if with_history:
+            r.extra['guards tried inside a shadow history (A-B-A-B)'] += 1
+            r.nt(('guard history', repr(types), tuple(g)))
+            vs, shadows = judge_guard_history(state, g, fresh)
+            for sv in shadows:
+                if sv != 'ok':      # not C20's business (a ticket-free value is refused / not pushable): counted, not judged
+                    r.no_verdict += 1
+                    r.out(f'{name}: shadow DUP {sv}')
+            case = {'history': history, 'guard': g, 'shadow': True}
+        else:
+            vs = judge_guard(state, g, fresh())
+            case = {'history': history, 'guard': g}
+        r.out(f'{name}{" (shadow history)" if with_history else ""}: ' + ('refused' if not vs else 'ACCEPTED'))
+        for d, detail in vs:
+            r.viol(d, case, detail)
+
+
 # ---------------------------------------------------------------- exploration
 def copy_stack(stack):
     from pytezos.michelson.stack import MichelsonStack
@@ -399,14 +545,17 @@ def canon(state):
     return repr(state)
 
 
-def expand(state, history, r: Result, on_new):
+def expand(state, history, r: Result, on_new, seen_shapes):
     """Run every enabled transition and every guard of one state."""
     base = impl_replay(history)
-    if base is None:
-        raise RuntimeError(f'history does not replay on the implementation: {history}')
-    got, problem = read_impl(base, [t for t, _ in state])
+    got, problem = read_impl(base, [t for t, _ in state]) if base is not None else (None, 'the history no longer runs')
     if got != state:
-        raise RuntimeError(f'replayed history gives another state: {history}: {problem} {got} vs {state}')
+        # every step of this history was judged equal to the reference when the state was discovered: the implementation
+        # answers differently the second time (behaviour depends on process history)
+        r.viol('a history that ran in lock-step with the reference gives another stack when it is run again',
+               {'history': history[:-1], 'transition': history[-1]} if history else {'history': [], 'guard': ['DUP']},
+               f'history {[tr_name(t) for t in history]}: {problem}; second run -> {show(got) if got else None}, first -> {show(state)}')
+        return
     types = [t for t, _ in state]
     holds = any(has_ticket(t) for t in types)
     for tr in enabled(types):
@@ -422,18 +571,13 @@ def expand(state, history, r: Result, on_new):
             r.viol(d, case, detail)
         if new is not None and impl == new:
             on_new(new, history + [tr])
-    for g in guards(types):
-        r.ev()
-        r.extra['guards tried'] += 1
-        vs = judge_guard(state, g, copy_stack(base))
-        r.out(f'guard {g[0]}{" n" if len(g) > 1 else ""}: ' + ('refused' if not vs else 'ACCEPTED'))
-        for d, detail in vs:
-            r.viol(d, {'history': history, 'guard': g}, detail)
+    run_guards(state, history, lambda: copy_stack(base), r, seen_shapes)
 
 
 def bfs(root_state, root_history, depth, r: Result, count_root=True):
     """BFS over successors of root for `depth` more levels; returns the last frontier [(state, history)]."""
     seen = {canon(root_state)}
+    seen_shapes = set()
     if count_root:
         r.state(canon(root_state))
     frontier = [(root_state, root_history)]
@@ -448,7 +592,7 @@ def bfs(root_state, root_history, depth, r: Result, count_root=True):
                 nxt.append((s, h))
 
         for s, h in frontier:
-            expand(s, h, r, on_new)
+            expand(s, h, r, on_new, seen_shapes)
         frontier = nxt
     return frontier
 
@@ -482,6 +626,162 @@ def ref_levels(root_state, root_history, depth):
 def _mk(s, n, c):
     return [['TICKET', s, n, c], ['IF_NONE']]
 
+# ---------------------------------------------------------------- scripted histories (contents family, shape family)
+def step(state, stack, hist, tr, r: Result, nontrivial=True):
+    """Judge one transition of a scripted history on the live stack (mutated).  Returns the new state or None when the
+    implementation left lock-step (reported by judge) or the reference fails."""
+    r.transitions += 1
+    r.traces += 1
+    r.ev()
+    if nontrivial:
+        r.nt((canon(state), json.dumps(tr, sort_keys=True)))
+    vs, label, new, impl = judge(state, tr, stack)
+    r.out(label)
+    for d, detail in vs:
+        r.viol(d, {'history': list(hist), 'transition': tr}, detail)
+    if new is None or impl != new:
+        return None
+    r.state(canon(new))
+    hist.append(tr)
+    return new
+
+
+def walk(script, r: Result):
+    """Run a scripted history from the empty stack, every transition judged.  -> (state, stack, history) | None."""
+    from pytezos.michelson.stack import MichelsonStack
+    state, stack, hist = (), MichelsonStack([]), []
+    for tr in script:
+        state = step(state, stack, hist, tr, r)
+        if state is None:
+            return None
+    return state, stack, hist
+
+
+ATOMS = [('nat',), ('string',), ('bytes',), ('bool',), ('int',), ('unit',)]
+ATOM_VALUES = {'nat': [0, 1], 'string': ['', 'a'], 'bytes': [b'', b'\x00'], 'bool': [False, True], 'int': [0, -1], 'unit': [()]}
+CONTEXTS = ['option', 'pair_l', 'pair_r', 'or_l', 'or_r']
+
+
+def content_cores(atoms):
+    """Content types of nesting depth <= 1 over the atoms, each with ALL its values over the two-valued atom domains
+    (which hold the empty / zero / false value of every atom)."""
+    out = []
+    for a in atoms:
+        out.append((a, list(ATOM_VALUES[a[0]])))
+    for a in atoms:
+        out.append((('option', a), [None] + [('Some', x) for x in ATOM_VALUES[a[0]]]))
+    for a in atoms:
+        for b in atoms:
+            va, vb = ATOM_VALUES[a[0]], ATOM_VALUES[b[0]]
+            out.append((('or', a, b), [('L', x) for x in va] + [('R', y) for y in vb]))
+            out.append((('pair', a, b), [(x, y) for x in va for y in vb]))
+    return out
+
+
+def in_context(kind, t, vals, nats, strs):
+    """Bury a content type one level deeper; the sibling components range over nats / strs."""
+    if kind == 'option':
+        return ('option', t), [None] + [('Some', v) for v in vals]
+    if kind == 'pair_l':
+        return ('pair', NAT, t), [(n, v) for n in nats for v in vals]
+    if kind == 'pair_r':
+        return ('pair', t, STRING), [(v, s_) for v in vals for s_ in strs]
+    if kind == 'or_l':
+        return ('or', t, NAT), [('L', v) for v in vals] + [('R', n) for n in nats]
+    return ('or', NAT, t), [('L', n) for n in nats] + [('R', v) for v in vals]
+
+
+def content_types(tier):
+    """[(type, values)] - distinct types, simplest first.  quick: all cores over the 6 atoms, in every context of depth <= 1,
+    and the cores over the first 4 atoms in every context chain of depth 2, sibling components constant (nat 1, string "x");
+    thorough: every core in every context chain of depth <= 2, siblings over two values."""
+    nats, strs = ([1], ['x']) if tier == 'quick' else ([0, 1], ['', 'x'])
+    seen, order = {}, []
+
+    def add(t, vals):
+        if t not in seen:
+            seen[t] = []
+            order.append(t)
+        for v in vals:          # one type: equal positions hold equal Python types, so == is value identity
+            if v not in seen[t]:
+                seen[t].append(v)
+
+    cores = content_cores(ATOMS)
+    narrow = {t for t, _ in content_cores(ATOMS[:4])}
+    level0 = list(cores)
+    for t, vals in level0:
+        add(t, vals)
+    level1 = [in_context(k, t, vals, nats, strs) for t, vals in level0 for k in CONTEXTS]
+    for t, vals in level1:
+        add(t, vals)
+    for (t, vals), (t0, _) in zip(level1, [c for c in level0 for _ in CONTEXTS]):
+        if tier == 'quick' and t0 not in narrow:
+            continue
+        for k in CONTEXTS:
+            add(*in_context(k, t, vals, nats, strs))
+    return [(t, seen[t]) for t in order]
+
+
+AMOUNTS = (2, 1)
+
+
+def contents_type_cases(t, vals, r: Result):
+    """One content type: for every ordered pair of values (v1, v2) the tickets (self, v1, 2) and (self, v2, 1) are minted, paired
+    and JOINed (Some iff v1 == v2); for v1 == v2 also with a foreign ticketer (None).  A successful join is followed by
+    SPLIT_TICKET back into (1, 2), READ_TICKET and a second JOIN, so the contents are followed through every ticket
+    instruction.  The first ticket of the type also gets the DUP guards."""
+    tym = T.t_to_micheline(t)
+    lits = [T.v_to_micheline(t, v) for v in vals]
+    seen_shapes = set()
+    for i, l1 in enumerate(lits):
+        for j, l2 in enumerate(lits):
+            for s2 in ((0, 1) if i == j else (0,)):
+                script = [['TICKET', 0, AMOUNTS[0], l1, tym], ['IF_NONE'], ['TICKET', s2, AMOUNTS[1], l2, tym], ['IF_NONE'],
+                          ['PAIR'], ['JOIN_TICKETS']]
+                res = walk(script, r)
+                if res is None:
+                    continue
+                state, stack, hist = res
+                if i == 0 and j == 0 and s2 == 0:
+                    first = ref_run(script[:2])
+                    base = impl_replay(script[:2])
+                    if base is not None:
+                        run_guards(first, script[:2], lambda: copy_stack(base), r, seen_shapes)
+                if state[0][1] is None:
+                    continue
+                for tr in (['IF_NONE'], ['SPLIT', AMOUNTS[1], AMOUNTS[0]], ['IF_NONE'], ['UNPAIR'], ['READ_TICKET'], ['DROP'],
+                           ['PAIR'], ['JOIN_TICKETS']):
+                    state = step(state, stack, hist, tr, r)
+                    if state is None:
+                        break
+
+
+def shape_cases(prefix, depth, r: Result):
+    """Shape family: a ticket buried under every chain of <= depth wrappers that starts with `prefix` (option / pair with a nat
+    on either side / list / or on either side / map value): each wrapping step is a judged transition (the ledger must not
+    move), and every shape gets its DUP guards inside the A-B-A-B history with the ticket-free value of the same shape."""
+    seen_shapes = set()
+
+    def rec(script, left):
+        res = walk(script, r)
+        if res is None:
+            return
+        state, stack, hist = res
+        run_guards(state, hist, lambda: copy_stack(stack), r, seen_shapes)
+        if left:
+            tym = T.t_to_micheline(state[0][0])
+            for w in WRAPPERS:
+                rec(script + [['WRAP', w, tym]], left - 1)
+
+    base = _mk(0, 3, 'a')
+    state = ref_run(base)
+    for w in prefix:
+        tr = ['WRAP', w, T.t_to_micheline(state[0][0])]
+        base = base + [tr]
+        state = ref_run(base)
+    rec(base, depth - len(prefix))
+
+
 
 # BFS roots: the empty stack and four stacks that already hold tickets (each reached by a history over the same
 # alphabet, so every explored history is a history from the empty stack); (name, history, depth quick, depth thorough)
@@ -493,6 +793,8 @@ SEEDS = [
     ('two tickets, different contents', _mk(0, 3, 'a') + _mk(0, 2, 'b'), 4, 5),
 ]
 SPLIT_DEPTH = 2
+CONTENT_SHARDS = {'quick': 48, 'thorough': 192}
+SHAPE_DEPTH = {'quick': 3, 'thorough': 4}
 
 
 def shards(tier, seed):
@@ -504,13 +806,30 @@ def shards(tier, seed):
         levels = ref_levels(ref_run(hist), hist, SPLIT_DEPTH)
         for _, h in levels[SPLIT_DEPTH]:
             out.append(('root', si, h))
+    n = CONTENT_SHARDS[tier]
+    out += [('contents', k, n) for k in range(n)]
+    out += [('shapes', 0, [w]) for w in WRAPPERS]
     return out
 
 
 def run_shard(spec, tier):
     kind, si, history = spec
-    depth = SEEDS[si][2 if tier == 'quick' else 3]
     r = Result()
+    if kind == 'contents':
+        mine = content_types(tier)[si::history]
+        for t, vals in mine:
+            contents_type_cases(t, vals, r)
+        r.extra['content types'] += len(mine)
+        if mine and si % 8 == 0:
+            t, vals = mine[-1]
+            lit, tym = T.v_to_micheline(t, vals[-1]), T.t_to_micheline(t)
+            r.sample({'history': [['TICKET', 0, 2, lit, tym], ['IF_NONE'], ['TICKET', 0, 1, lit, tym], ['IF_NONE'], ['PAIR']],
+                      'transition': ['JOIN_TICKETS']})
+        return r
+    if kind == 'shapes':
+        shape_cases(history, SHAPE_DEPTH[tier], r)
+        return r
+    depth = SEEDS[si][2 if tier == 'quick' else 3]
     state = ref_run(history)
     base = impl_replay(history)
     got = read_impl(base, [t for t, _ in state])[0] if base is not None else None
@@ -540,6 +859,8 @@ def replay(case):
     if base is None:
         return [('recorded history does not run on the implementation', str(history))]
     if 'guard' in case:
+        if case.get('shadow'):
+            return judge_guard_history(state, list(case['guard']), lambda: copy_stack(base))[0]
         return judge_guard(state, list(case['guard']), base)
     vs, _, _, _ = judge(state, list(case['transition']), base)
     return vs
